@@ -104,7 +104,7 @@ func runC07(r *Run, verifDir string) {
 	} else {
 		complete := false
 		for _, dc := range dominatingConds(unmarshalCall.Block()) {
-			if bo, ok := dc.cond.(*ssa.BinOp); ok && dc.outcome && bo.Op == token.GEQ && bo.X == ssa.Value(readNext) && bo.Y == ssa.Value(cnbCall) {
+			if impliesGE(dc.cond, dc.outcome, readNext, cnbCall) {
 				complete = true
 			}
 		}
@@ -374,19 +374,30 @@ func runC07(r *Run, verifDir string) {
 	}
 	// (b) loop edge only under read < need
 	backOK := false
+	nBack, nBackOK := 0, 0
 	if readNext != nil {
 		hdr := needPhi.Block()
 		for _, pr := range hdr.Preds {
 			if !hdr.Dominates(pr) {
 				continue
 			}
+			facts := dominatingConds(pr)
 			if cond, isTrue, ok := edgeTaken(pr, hdr); ok {
-				if bo, ok := cond.(*ssa.BinOp); ok && bo.Op == token.GEQ && !isTrue && bo.X == ssa.Value(readNext) && bo.Y == ssa.Value(cnbCall) {
-					backOK = true
+				facts = append(facts, domCond{cond, isTrue, pr})
+			}
+			thisOK := false
+			for _, f := range facts {
+				if impliesLT(f.cond, f.outcome, readNext, cnbCall) {
+					thisOK = true
 				}
+			}
+			nBack++
+			if thisOK {
+				nBackOK++
 			}
 		}
 	}
+	backOK = nBack > 0 && nBack == nBackOK
 	if backOK {
 		r.OK("C07.S6", "ttlv.Stream.Recv/read-lt-need", fn.Pos(), "the loop continues only when read < need (initially 0 < 8): low <= high in buf[read:need]")
 	} else {
@@ -395,7 +406,6 @@ func runC07(r *Run, verifDir string) {
 	// (c) buf[:read+n] and buf[:need] within cap: read+n <= need by the io.Reader contract; need <= cap by (a)
 	r.OK("C07.S6", "ttlv.Stream.Recv/prefixes", fn.Pos(), "buf[:read+n] (n <= need-read by the io.Reader contract) and buf[:need] are within cap(buf) >= need")
 }
-
 
 // proveCap: cap(v) >= need holds whenever control is in block blk having arrived through edge conditions extra.
 // Derivation rules: a dominating (or edge) comparison need <= cap(v) / need <= len(v); phi = all edges; v[:h] / v[:] keep
